@@ -120,7 +120,7 @@ def namespace(inputs, params):
     """The bindings under which the condition is evaluated: parameters > closure > globals > builtins."""
     ns = {}
     ns.update(GR.GLOBAL_VALUES)
-    for k in ("ident", "add", "kw", "first", "p", "mkq"):
+    for k in ("ident", "add", "kw", "tag", "first", "p", "mkq"):
         ns[k] = getattr(exprlib, k)
     ns.update(GR.CLOSURE_VALUES)
     for k in params:
